@@ -54,6 +54,105 @@ def hashseed_outputs(src, opts, seeds):
     return outs
 
 
+def config_history(ctx):
+    """the options are part of the input: a configuration object that was used for one conversion and then changed, and a
+    configuration file name that is read again (after an edit, or from another working directory), give what a fresh
+    process gives for the new content"""
+    import io
+    import shutil
+    import tempfile
+
+    from coco.b09 import compiler
+    from coco.b09.configs import CompilerConfigs, StringConfigs
+
+    src = '10 DIM B$ , C$ ( 5 ) , N$ ( 2 ) : B$ = "X" : C$ ( 1 ) = B$ : N$ ( 1 ) = B$\n'
+    kw = dict(add_standard_prefix=False, add_suffix=False, skip_procedure_headers=True, default_str_storage=64)
+    maps = [{"B$": 40, "C$()": 41}, {"B$": 200, "C$()": 77, "N$()": 16}, {}, {"N$()": 90}]
+
+    def fresh(mapping):
+        code = ("import sys, json; sys.path.insert(0, %r); from coco.b09 import compiler; from coco.b09.configs import CompilerConfigs, StringConfigs; "
+                "print(json.dumps(compiler.convert(%r, compiler_configs=CompilerConfigs(string_configs=StringConfigs(strname_to_size=%r)), **%r)))" % (REPO, src, mapping, kw))
+        r = subprocess.run([sys.executable, "-c", code], env=dict(os.environ, PYTHONHASHSEED="0"), capture_output=True, text=True, timeout=120)
+        if r.returncode != 0:
+            raise HarnessError("fresh-process conversion with a configuration failed: " + r.stderr[-200:])
+        return json.loads(r.stdout)
+
+    want = [fresh(m) for m in maps]
+    # (a) one configuration object, changed between conversions (assignment of a new table, and update in place)
+    for how in ("assign", "in-place"):
+        sc = StringConfigs(strname_to_size=dict(maps[0]))
+        cfg = CompilerConfigs(string_configs=sc)
+        for i, m in enumerate(maps):
+            if i:
+                if how == "assign":
+                    sc.strname_to_size = dict(m)
+                else:
+                    sc.strname_to_size.clear()
+                    sc.strname_to_size.update(m)
+            got = compiler.convert(src, compiler_configs=cfg, **kw)
+            ctx.stats["obligations"] += 1
+            ctx.stats["programs"] += 1
+            ctx.stats["traces_validated_against_impl"] += 1
+            if got == want[i]:
+                ctx.stats["identity"] += 1
+            else:
+                ctx.violation(f"history-dependent:configuration-object-reused:{how}", f"conversion {i + 1} with one configuration object whose table was changed ({how}) to {m}: output differs from a fresh process with that table", {"source": src, "options": kw, "tables": maps[: i + 1]})
+                break
+    # (b) configuration files: same name in two directories (relative path), and one file edited between conversions
+    tmp = tempfile.mkdtemp(prefix="c12cfg")
+    cwd = os.getcwd()
+    try:
+        def yaml_of(m):
+            return "string_configs:\n  strname_to_size:" + ("".join(f'\n    "{k}": {v}' for k, v in m.items()) if m else " {}") + "\n"
+
+        def via_file(config_file):
+            out = io.StringIO()
+            compiler.convert_file(io.StringIO(src), out, config_file=config_file, default_str_storage=64, add_standard_prefix=False)
+            return out.getvalue()
+
+        def fresh_file(mapping):
+            code = ("import sys, io, json; sys.path.insert(0, %r); from coco.b09 import compiler; from coco.b09.configs import CompilerConfigs, StringConfigs; "
+                    "print(json.dumps(compiler.convert(%r, compiler_configs=CompilerConfigs(string_configs=StringConfigs(strname_to_size=%r)), default_str_storage=64, add_standard_prefix=False).replace(chr(10), chr(13))))" % (REPO, src, mapping))
+            r = subprocess.run([sys.executable, "-c", code], env=dict(os.environ, PYTHONHASHSEED="0"), capture_output=True, text=True, timeout=120)
+            if r.returncode != 0:
+                raise HarnessError("fresh-process conversion failed: " + r.stderr[-200:])
+            return json.loads(r.stdout)
+
+        wantf = [fresh_file(m) for m in maps[:2]]
+        for d, m in (("p1", maps[0]), ("p2", maps[1])):
+            os.makedirs(os.path.join(tmp, d))
+            with open(os.path.join(tmp, d, "config.yaml"), "w") as f:
+                f.write(yaml_of(m))
+        outs = []
+        for d in ("p1", "p2"):
+            os.chdir(os.path.join(tmp, d))
+            outs.append(via_file("config.yaml"))
+        os.chdir(cwd)
+        for i, (g, w) in enumerate(zip(outs, wantf)):
+            ctx.stats["obligations"] += 1
+            ctx.stats["traces_validated_against_impl"] += 1
+            if g == w:
+                ctx.stats["identity"] += 1
+            else:
+                ctx.violation("history-dependent:configuration-file:same-name-other-directory", f"convert_file with config_file='config.yaml' in directory {i + 1} of 2: output differs from a fresh process reading that directory's file", {"source": src, "options": {"config_file": "config.yaml"}})
+        path = os.path.join(tmp, "edited.yaml")
+        outs = []
+        for m in maps[:2]:
+            with open(path, "w") as f:
+                f.write(yaml_of(m))
+            outs.append(via_file(path))
+        for i, (g, w) in enumerate(zip(outs, wantf)):
+            ctx.stats["obligations"] += 1
+            ctx.stats["traces_validated_against_impl"] += 1
+            if g == w:
+                ctx.stats["identity"] += 1
+            else:
+                ctx.violation("history-dependent:configuration-file:edited-between-conversions", f"convert_file after the configuration file was rewritten (conversion {i + 1}): output differs from a fresh process reading the file", {"source": src, "options": {"config_file": "<edited>"}})
+    finally:
+        os.chdir(cwd)
+        shutil.rmtree(tmp, ignore_errors=True)
+
+
 def run(tier):
     ctx = Ctx("C12", tier, "model_checking", technique="set iteration order as an explicit choice (shadow set class in the tool's modules); exhaustive schedule exploration with z3-checked coverage of the choice tree; replay with real PYTHONHASHSEED values")
     smt.reset_stats()
@@ -133,6 +232,7 @@ def run(tier):
             which = "repeat" if hist[i] != again[i] else "fresh-process"
             ctx.violation(f"history-dependent:{which}:{'bundle' if opts.get('output_dependencies') else 'plain'}", f"{src!r}: output depends on what was converted before ({which})", {"source": src, "options": opts})
         ctx.stats["traces_validated_against_impl"] += 1
+    config_history(ctx)
     # the same for the image decoders: a second picture decoded in the same process = that picture in a fresh process
     from vf.props import dec
 
@@ -145,6 +245,19 @@ def run(tier):
 
 
 def replay(rec):
+    sig = rec.get("signature", "")
+    if sig.startswith("history-dependent:configuration"):
+        probe = Ctx("C12", "quick", "model_checking", technique="replay")
+        config_history(probe)
+        hit = [s_ for s_, _, _ in probe.new_violations] + list(probe.known_hit)
+        print(hit)
+        return sig in hit
+    if sig.startswith("history:"):
+        from vf.props import dec
+
+        probe = Ctx("C12", "quick", "model_checking", technique="replay")
+        dec.decoder_history(probe, [rec.get("decoder", "mgetoppm")] + (["mgetoppm:rle"] if rec.get("decoder") == "mgetoppm" else []))
+        return bool(probe.new_violations or probe.known_hit)
     outs = hashseed_outputs(rec["source"], rec["options"], list(range(12)))
     print(len(set(outs.values())), "distinct outputs over 12 hash seeds")
     return len(set(outs.values())) > 1
